@@ -19,7 +19,8 @@ try:
             demo_src = c; break
     os.makedirs(os.path.dirname(os.path.join(wt, demo_rel)), exist_ok=True)
     shutil.copy(demo_src, os.path.join(wt, demo_rel))
-    cmd = meta['demo_cmd']
+    import re
+    cmd = re.sub(r'/tmp/seed-C\d+(?![-\w])', wt, meta['demo_cmd'])
     rc0, out0 = sh(cmd)
     print('demo without patch: rc=%d' % rc0)
     rc, o = sh('git apply %s' % os.path.join(os.path.abspath(src), 'patch.diff'))
